@@ -40,6 +40,10 @@ import (
 	slashingtypes "github.com/cosmos/cosmos-sdk/x/slashing/types"
 	stakingtypes "github.com/cosmos/cosmos-sdk/x/staking/types"
 
+	transfertypes "github.com/cosmos/ibc-go/v3/modules/apps/transfer/types"
+	ibcclienttypes "github.com/cosmos/ibc-go/v3/modules/core/02-client/types"
+	channeltypes "github.com/cosmos/ibc-go/v3/modules/core/04-channel/types"
+
 	"github.com/ethereum/go-ethereum/common"
 	ethtypes "github.com/ethereum/go-ethereum/core/types"
 
@@ -261,6 +265,13 @@ func execOOB(a *app.Teleport, ctx sdk.Context, op Op) {
 		must(a.InterfaceRegistry().UnpackAny(&consAny, &cons))
 		if err := a.XIBCKeeper.ClientKeeper.CreateClient(ctx, string(arg(0)), cs, cons); err != nil {
 			panic(err)
+		}
+	case "aggregate_ibc_recv": // AggregateKeeper.OnRecvPacket(packet, success ack): the aggregate module's ICS-20 hook, called
+		// the way the transfer middleware stack calls it after the transfer module acknowledged the packet with success
+		packet := channeltypes.NewPacket(arg(0), binary.BigEndian.Uint64(arg(1)), transfertypes.PortID, string(arg(2)),
+			transfertypes.PortID, string(arg(3)), ibcclienttypes.NewHeight(0, 100), 0)
+		if got := a.AggregateKeeper.OnRecvPacket(ctx, packet, channeltypes.NewResultAcknowledgement([]byte{1})); got == nil || !got.Success() {
+			panic("the hook changed the acknowledgement")
 		}
 	case "register_relayer": // ClientKeeper.RegisterRelayers(address, chains, addresses)
 		a.XIBCKeeper.ClientKeeper.RegisterRelayers(ctx, string(arg(0)), []string{string(arg(1))}, []string{string(arg(2))})
